@@ -65,7 +65,7 @@ ASSUMPTIONS = [
     "(round-trip failures make the run inconclusive, never a violation)",
     "an integer literal in a Decimal/Fraction registry may be int or non_int_type",
     "open('<string>','rb') raised by CPython's tokenizer error path is benign (constant path)",
-    "per-parse watchdog 20 s; magnitude guard: |exponent| <= 2048, integer results <= 3e5 bits",
+    "per-parse watchdog 20 s of CPU time (hostile strings 1.5 s); magnitude guard: |exponent| <= 2048, integer results <= 3e5 bits",
 ]
 DEPS = ()
 NPARTS = 16
@@ -95,7 +95,7 @@ def required(tier):
         "entrypoint_cases": 10_000 if q else 200_000,
         "parserhelper_cases": 2_000 if q else 40_000,
         "truncations_must_raise": 15_000 if q else 300_000,
-        "fuzz_strings": 20_000 if q else 480_000,
+        "fuzz_strings": 20_000 if q else 380_000,
         "fuzz_profile_events": 1_000_000,
         "fuzz_families": 7,
         "audit_hook_live": 16,
@@ -123,11 +123,11 @@ def _alarm(signum, frame):
 
 
 def guarded(fn, arg, limit=20.0):
-    signal.setitimer(signal.ITIMER_REAL, limit)
+    signal.setitimer(signal.ITIMER_VIRTUAL, limit)
     try:
         return fn(arg)
     finally:
-        signal.setitimer(signal.ITIMER_REAL, 0)
+        signal.setitimer(signal.ITIMER_VIRTUAL, 0)
 
 
 # --------------------------------------------------------------------------------------
@@ -224,7 +224,7 @@ class Watch:
         """Parse under the monitors.  Returns (outcome, audit events, forbidden calls)."""
         self.events, self.calls = [], []
         out = None
-        signal.setitimer(signal.ITIMER_REAL, limit)
+        signal.setitimer(signal.ITIMER_VIRTUAL, limit)
         try:
             if profile:
                 sys.setprofile(self.prof)
@@ -242,7 +242,7 @@ class Watch:
         except BaseException as e:  # noqa: BLE001
             out = ("base", type(e).__name__, e)
         finally:
-            signal.setitimer(signal.ITIMER_REAL, 0)
+            signal.setitimer(signal.ITIMER_VIRTUAL, 0)
             self.armed = False
         return out, self.events, self.calls
 
@@ -454,46 +454,62 @@ _TIGHT_GROUP = re.compile(r"(?<=[\w)⁰¹²³⁴⁵⁶⁷⁸⁹])\(")
 _TIGHT_OPS = ("**", "^", "//", "/", "*")
 
 
-def pending_operator(s):
-    """For the first '(' that directly follows an operand: the operator that precedes that
-    operand (what a correct reader must finish before multiplying).  Mechanism field only."""
+def tight_group_context(s):
+    """Mechanism fields for a string with a '(' glued to the operand before it: the operator a
+    correct reader still has to finish before multiplying (of the operand left of the group),
+    and whether a power operator follows the group."""
     from harness import c07_lang as L
     try:
         toks = L.ref_tokens(s)
     except L.RefSyntaxError:
-        return "?"
-    found = []
+        return "?", False
+    found, power_after = [], False
     for i, t in enumerate(toks):
-        if t[0] == "op" and t[1] == "(" and i > 0 and toks[i - 1][3] == t[2] and (
-                toks[i - 1][0] in ("num", "name", "sup") or toks[i - 1][1] == ")"):
-            j = i - 1
-            if toks[j][0] == "sup":
-                found.append("superscript")
-                continue
-            if toks[j][1] == ")":
-                depth = 0
-                while j >= 0:
-                    if toks[j][1] == ")":
-                        depth += 1
-                    elif toks[j][1] == "(":
-                        depth -= 1
-                        if depth == 0:
-                            break
-                    j -= 1
-            j -= 1
-            if j < 0 or toks[j][1] == "(":
-                found.append("none")
-            elif toks[j][0] == "op":
-                op = toks[j][1]
-                if op in "+-" and (j == 0 or (toks[j - 1][0] == "op" and toks[j - 1][1] != ")")):
-                    op = "unary" + op
-                found.append(op)
-            else:
-                found.append("juxtaposition")
+        if not (t[0] == "op" and t[1] == "(" and i > 0 and toks[i - 1][3] == t[2] and (
+                toks[i - 1][0] in ("num", "name", "sup") or toks[i - 1][1] == ")")):
+            continue
+        # what follows the group
+        depth, k = 0, i
+        while k < len(toks):
+            if toks[k][1] == "(":
+                depth += 1
+            elif toks[k][1] == ")":
+                depth -= 1
+                if depth == 0:
+                    break
+            k += 1
+        if k + 1 < len(toks) and (toks[k + 1][1] in ("**", "^") or toks[k + 1][0] == "sup"):
+            power_after = True
+        # what precedes the operand left of the group
+        j = i - 1
+        if toks[j][0] == "sup":
+            found.append("superscript")
+            continue
+        if toks[j][1] == ")":
+            depth = 0
+            while j >= 0:
+                if toks[j][1] == ")":
+                    depth += 1
+                elif toks[j][1] == "(":
+                    depth -= 1
+                    if depth == 0:
+                        break
+                j -= 1
+        j -= 1
+        if j < 0 or toks[j][1] == "(":
+            found.append("none")
+        elif toks[j][0] == "op" and toks[j][1] != ")":
+            op = toks[j][1]
+            if op in "+-":
+                unary = j == 0 or (toks[j - 1][0] == "op" and toks[j - 1][1] != ")")
+                op = ("unary" + op) if unary else "none"       # binary + and - bind looser: harmless
+            found.append(op)
+        else:
+            found.append("juxtaposition")
     for pref in ("**", "^", "superscript", "//", "/", "unary-", "unary+", "*", "juxtaposition"):
         if pref in found:
-            return pref
-    return found[0] if found else "?"
+            return pref, power_after
+    return "none", power_after
 
 
 class Comparator:
@@ -601,8 +617,10 @@ class Comparator:
             g2, _, _ = self.watch.run(env.ureg.parse_expression, alt)
             if g2[0] in ("ok", "err") and outcome_diff(g2, want, Q) in (None, "rounding"):
                 wit["repaired_by_blank_before_parenthesis"] = alt
-                rec.violation("group-juxtaposed-without-blank-binds-tighter-than-pending-operator", wit,
-                              pending_operator=pending_operator(s), kind=kind)
+                wit["kind"] = kind
+                pend, pw = tight_group_context(s)
+                rec.violation("group-glued-to-operand-is-multiplied-before-neighbouring-operators", wit,
+                              unfinished_operator_on_the_left=pend, power_operator_after_group=pw)
                 return
         rec.violation("parse-differs-from-tree", wit, kind=kind, nit=env.nitname, workload=workload,
                       style=stname, features=",".join(sorted(used)), root=t[0],
@@ -646,7 +664,7 @@ class Comparator:
             if x[0] == "n":
                 return env.number(x[1], "int" if nit is float else "nit")
             if x[0] == "u":
-                return PH(1, {x[1]: 1}, non_int_type=nit)
+                return PH.from_word(x[1], nit)       # one-word lookup, not the expression grammar
             if x[0] == "**":
                 return ev(x[1]) ** ev(x[2])
             return BIN[x[0]](ev(x[1]), ev(x[2]))
@@ -673,8 +691,10 @@ class Comparator:
         if bad:
             wit = {"string": s, "tree": repr(t), "from_string": short(got[1:]), "tree_value": short(want[1:])}
             if _TIGHT_GROUP.search(s):
-                rec.violation("group-juxtaposed-without-blank-binds-tighter-than-pending-operator", wit,
-                              pending_operator=pending_operator(s), kind="ParserHelper:" + bad)
+                pend, pw = tight_group_context(s)
+                wit["kind"] = "ParserHelper:" + bad
+                rec.violation("group-glued-to-operand-is-multiplied-before-neighbouring-operators", wit,
+                              unfinished_operator_on_the_left=pend, power_operator_after_group=pw)
             else:
                 rec.violation("parserhelper-differs-from-tree", wit, kind=bad, nit=env.nitname)
 
@@ -705,18 +725,23 @@ def wl_full(spec, rec, cmp, envs, rng):
                     for tt in (L.with_unary(t, k) if k else (t,)):
                         i += 1
                         if mine(i, spec):
-                            lean = k == 2 or (quick and k == 1 and nl == 3)
-                            cmp.check(tt, env, nrandom=0 if lean else nrandom, workload="full3",
-                                      styles=[cmp.fixed[1], cmp.fixed[4], cmp.fixed[5]] if lean else styles)
+                            lean = k == 2 or (k == 1 and nl == 3 and (quick or nitname != "float"))
+                            if not lean:
+                                cmp.check(tt, env, nrandom=nrandom, workload="full3", styles=styles)
+                            elif quick or k == 2:
+                                cmp.check(tt, env, nrandom=0, workload="full3",
+                                          styles=[cmp.fixed[1], cmp.fixed[4 + (i // spec["parts"]) % 2]])
+                            else:
+                                cmp.check(tt, env, nrandom=0, workload="full3",
+                                          styles=[cmp.fixed[1], cmp.fixed[3], cmp.fixed[4 + (i // spec["parts"]) % 2]])
     rec.count("full3_enumerated", i if spec["part"] == 0 else 0)
     if not quick:
         env = envs["float"]
-        sty = [cmp.fixed[1], cmp.fixed[4], cmp.fixed[5]]
         j = 0
         for t in L.iter_trees_full(4):
             j += 1
             if mine(j, spec):
-                cmp.check(t, env, nrandom=0, workload="full4", styles=sty)
+                cmp.check(t, env, nrandom=0, workload="full4", styles=[cmp.fixed[(j // spec["parts"]) % 6]])
         rec.count("full4_enumerated", j if spec["part"] == 0 else 0)
 
 
@@ -741,11 +766,12 @@ def wl_skeleton(spec, rec, cmp, envs, rng):
                 assigns = [[rng.choice(L.NUM_LEAVES) for _ in range(n)],
                            [rng.choice(L.LEAVES) for _ in range(n)]]
                 if n <= 5:
-                    assigns.append([rng.choice(L.NUM_LEAVES) for _ in range(n)])
                     assigns.append([rng.choice(L.LEAVES[:5]) for _ in range(n)])
+                if n <= 4:
+                    assigns.append([rng.choice(L.NUM_LEAVES) for _ in range(n)])
                 for a in assigns:
                     env = envs[rng.choice(names) if rng.random() < 0.4 else "float"]
-                    sty = rng.sample(cmp.fixed, 3)
+                    sty = rng.sample(cmp.fixed, 3 if n <= 4 else 2)
                     cmp.check(L.fill(v, a), env, nrandom=1, workload=f"skeleton{n}", styles=sty)
     for n in ((4,) if quick else (4, 5, 6)):
         rec.observe("skeleton_leaves_enumerated", n)
@@ -753,7 +779,7 @@ def wl_skeleton(spec, rec, cmp, envs, rng):
 
 def wl_random(spec, rec, cmp, envs, rng):
     from harness import c07_lang as L
-    total = 24_000 if spec["tier"] == "quick" else 480_000
+    total = 24_000 if spec["tier"] == "quick" else 300_000
     names = list(envs)
     for _ in range(total // spec["parts"]):
         t = L.random_tree(rng, rng.randint(5, 12))
@@ -867,7 +893,7 @@ def wl_literals(spec, rec, cmp, envs, rng):
                 if wants[0][0] == "skip":
                     continue
                 d = best_diff(got, wants, env.Q)
-                if got[0] == "ok":
+                if got[0] == "ok" and tpl in ("{L}", "{L} m"):
                     v = got[1]._magnitude if isinstance(got[1], env.Q) else got[1]
                     rec.observe("literal_types", f"{nitname}:{'integer' if txt in ints else 'non-integer'}->{type(v).__name__}")
                 if d not in (None, "rounding"):
@@ -963,7 +989,7 @@ def wl_uncertainty(spec, rec, cmp, envs, rng):
 # ---- damaged strings -------------------------------------------------------------------
 def wl_truncations(spec, rec, cmp, envs, rng):
     from harness import c07_lang as L
-    total = 36_000 if spec["tier"] == "quick" else 700_000
+    total = 36_000 if spec["tier"] == "quick" else 500_000
     budget = total // spec["parts"]
     names = list(envs)
     done = 0
@@ -1017,7 +1043,7 @@ def wl_fuzz(spec, rec, cmp, envs, rng):
     from harness import c07_lang as L
     import builtins
     watch = cmp.watch
-    total = 24_000 if spec["tier"] == "quick" else 520_000
+    total = 24_000 if spec["tier"] == "quick" else 400_000
     budget = total // spec["parts"]
     env_names = list(envs)
     names = sorted(set(dir(envs["float"].ureg)) | set(dir(envs["float"].Q)) | set(dir(builtins))
@@ -1042,7 +1068,7 @@ def wl_fuzz(spec, rec, cmp, envs, rng):
         env = envs[rng.choice(env_names)]
         door = rng.random()
         fn = env.ureg.parse_expression if door < 0.8 else (env.ureg if door < 0.9 else env.Q)
-        got, events, calls = watch.run(fn, s, profile=True, limit=8.0)
+        got, events, calls = watch.run(fn, s, profile=True, limit=1.5)
         rec.count("fuzz_strings")
         rec.observe("fuzz_families", fam)
         oc = oclass(got, env.Q)
@@ -1088,7 +1114,7 @@ def run_shard(spec, rec):
     import pint
     import traceback
 
-    signal.signal(signal.SIGALRM, _alarm)
+    signal.signal(signal.SIGVTALRM, _alarm)
     sys.setrecursionlimit(3000)
     rng = random.Random(spec["seed"])
     envs = {n: Env(pint, pintload.registry(non_int_type=NIT[n]) if n != "float" else pintload.registry(), n)
